@@ -11,6 +11,8 @@ EXPLANATION = ("C14: (R1) the function-map decoder's running state (column reset
 NOT_DECIDED = "agreement with Metro's consumer on all metadata strings (value-level)."
 
 RULES = {
+    # "answers unchanged by serialising and decoding again": the writer drops exact duplicates only
+    "C14.R8": lambda ctx: __import__("rules.encrules", fromlist=["x"]).only_duplicates_skipped(ctx, "C14.R8"),
     "C14.RG": lambda ctx: __import__("rules.foundations", fromlist=["x"]).no_global_state(ctx, "C14.RG"),
     "C14.R7": lambda ctx: __import__("rules.decoderrules", fromlist=["x"]).dispatch(ctx, "C14.R7"),
     "C14.R6": lambda ctx: __import__("rules.decoderrules", fromlist=["x"]).hermes_regular_part(ctx, "C14.R6"),
